@@ -787,6 +787,48 @@ func (e *SpecEnv) evalCall(n *ast.CallExpr) Value {
 		}
 		sub.localFirst = false
 		return sub.eval(n.Args[0])
+	case "rangeidx", "rangen", "rangekey", "rangehad":
+		// ghost view of the innermost map iteration: rangeidx() iterations completed, rangen() number of keys at loop
+		// entry, rangekey(i) the i-th key of the enumeration, rangehad(k) key k was present at loop entry
+		ib, ok := e.st.Vars["range.iter"].(iterBox)
+		if !ok {
+			e.errorf("%s: no map iteration in scope", fname)
+			return UnknownV{}
+		}
+		switch fname {
+		case "rangen":
+			return Scalar{T: ib.it.n, Ty: tyInt}
+		case "rangeidx":
+			if jv, ok := e.st.Vars["range.j:"+ib.name].(Scalar); ok {
+				return Scalar{T: jv.T, Ty: tyInt}
+			}
+			return Scalar{T: BVLit(0, 64), Ty: tyInt}
+		case "rangekey":
+			i := e.idxTerm(argv(0))
+			var kty types.Type
+			if !isString(ib.it.mt.Key()) {
+				kty = ib.it.mt.Key()
+			}
+			return Scalar{T: Select(ib.it.keys, i), Ty: kty}
+		default:
+			k := x.mapKeyTerm(argv(0), ib.it.mt.Key(), e)
+			return Scalar{T: x.mapHasQuiet(ib.it.st0, ib.it.mt, ib.it.m, k), Ty: tyBool}
+		}
+	case "chanClosed":
+		// chanClosed(x.f): channel held in field f has been closed (typestate component of that field)
+		key := "Chan.closed"
+		if se, ok := n.Args[0].(*ast.SelectorExpr); ok {
+			if bv, ok := e.eval(se.X).(Scalar); ok && bv.Ty != nil {
+				if pt, ok := bv.Ty.Underlying().(*types.Pointer); ok {
+					key = "Chan.closed@" + typeName(pt.Elem()) + "." + se.Sel.Name
+				}
+			}
+		}
+		if ch, ok := argv(0).(Scalar); ok {
+			return Scalar{T: x.objGet(e.st, key, BoolS, ch.T), Ty: tyBool}
+		}
+		e.errorf("chanClosed: channel expected")
+		return UnknownV{}
 	case "prev":
 		// value of an expression at the previous section cut (or at entry)
 		sub := *e
